@@ -80,6 +80,12 @@ func genBody(spec string) []byte {
 		return jpegOf(n, n, 0x45)
 	case "jpeg-white": // n x n white image: the pixels (0xff) are no valid LZW, hex or ASCII85 data
 		return jpegOf(n, n, 0xff)
+	case "jpeg-min": // minimal baseline JPEG of n x n grey pixels: two bits per 8x8 block (n a multiple of 8)
+		return jpegMin(n)
+	case "flate-jpeg-min":
+		return zlibOf(jpegMin(n))
+	case "hex-jpeg-min":
+		return codecs.ASCIIHexEncode(jpegMin(n))
 	case "jpeg-claim": // a small JPEG whose frame header claims 65535 x 65535
 		b := jpegOf(16, 16, 0x80)
 		if i := bytes.Index(b, []byte{0xff, 0xc0}); i >= 0 {
@@ -690,5 +696,70 @@ func jbig2Cases(ctx *core.Ctx) []*Case {
 			}
 		}
 	}
+	return cases
+}
+
+// jpegMin builds a baseline grey JPEG whose Huffman tables hold a single
+// one-bit code each (DC difference 0, end of block): n*n pixels from about
+// n*n/256 bytes.
+func jpegMin(dim int) []byte {
+	var b bytes.Buffer
+	w := func(p ...byte) { b.Write(p) }
+	w(0xFF, 0xD8)
+	w(0xFF, 0xDB, 0x00, 0x43, 0x00)
+	for i := 0; i < 64; i++ {
+		w(0x01)
+	}
+	w(0xFF, 0xC0, 0x00, 0x0B, 0x08, byte(dim>>8), byte(dim), byte(dim>>8), byte(dim), 0x01, 0x01, 0x11, 0x00)
+	counts := [16]byte{1}
+	w(0xFF, 0xC4, 0x00, 0x14, 0x00)
+	w(counts[:]...)
+	w(0x00)
+	w(0xFF, 0xC4, 0x00, 0x14, 0x10)
+	w(counts[:]...)
+	w(0x00)
+	w(0xFF, 0xDA, 0x00, 0x08, 0x01, 0x01, 0x00, 0x00, 0x3F, 0x00)
+	b.Write(make([]byte, (dim/8)*(dim/8)*2/8+8))
+	w(0xFF, 0xD9)
+	return b.Bytes()
+}
+
+// globalsCases: JBIG2Decode streams whose /JBIG2Globals stream is itself
+// filtered and decodes beyond, just above, exactly to and just below the
+// 8 MiB the library reads for globals (limits.MaxJBIG2GlobalsBytes).  The
+// globals are decoded inside GetFilters, before the caller has any reader to
+// close: whatever the outcome, no goroutine of that inner chain may survive
+// DecodeStream's return, and the allocation stays within the documented bound.
+func globalsCases() []*Case {
+	jb := nm("JBIG2Decode")
+	fl := nm("FlateDecode")
+	dct := nm("DCTDecode")
+	page := []byte{0, 0, 0, 0}
+	mk := func(class string, filter c06.Val, g *Case) *Case {
+		return &Case{Class: "globals/" + class, Filter: filter, Parms: none, body: page, Globals: g}
+	}
+	gl := func(filter c06.Val, gen string) *Case { return &Case{Filter: filter, Parms: none, BodyGen: gen} }
+	const cap = 8 << 20
+	cases := []*Case{
+		mk("dct-16MiB", jb, gl(dct, "jpeg-min:4096")),
+		mk("dct-just-above-cap", jb, gl(dct, "jpeg-min:2904")), // 2904^2 = 8433216
+		mk("dct-just-below-cap", jb, gl(dct, "jpeg-min:2896")), // 2896^2 = 8386816
+		mk("dct-small", jb, gl(dct, "jpeg-min:64")),
+		mk("flate-then-dct-16MiB", jb, gl(arr(fl, dct), "flate-jpeg-min:4096")),
+		mk("asciihex-then-dct-16MiB", jb, gl(arr(nm("ASCIIHexDecode"), dct), "hex-jpeg-min:4096")),
+		mk("dct-then-runlength-16MiB", jb, gl(arr(dct, nm("RunLengthDecode")), "jpeg-min:4096")),
+		mk("flate-zeros-64MiB", jb, gl(fl, fmt.Sprintf("flate-zeros:%d", 64<<20))),
+		mk("flate-zeros-cap+1", jb, gl(fl, fmt.Sprintf("flate-zeros:%d", cap+1))),
+		mk("flate-zeros-cap", jb, gl(fl, fmt.Sprintf("flate-zeros:%d", cap))),
+		mk("flate-zeros-cap-1", jb, gl(fl, fmt.Sprintf("flate-zeros:%d", cap-1))),
+		mk("flate-flate-zeros-64MiB", jb, gl(arr(fl, fl), fmt.Sprintf("flate2-zeros:%d", 64<<20))),
+		mk("lzw-zeros-16MiB", jb, gl(nm("LZWDecode"), fmt.Sprintf("lzw-zeros:%d", 4<<20))),
+		mk("unfiltered-garbage", jb, gl(none, "ones:1000")),
+		mk("self-reference", jb, &Case{Filter: jb, Parms: none, BodyGen: "zeros:16", SelfRef: true}),
+		mk("in-chain/dct-16MiB", arr(nm("ASCIIHexDecode"), jb), gl(dct, "jpeg-min:4096")),
+		mk("dct-16MiB/abandoned", jb, gl(dct, "jpeg-min:4096")),
+	}
+	cases[len(cases)-2].body = codecs.ASCIIHexEncode(page)
+	cases[len(cases)-1].Abandon = 1
 	return cases
 }
